@@ -217,6 +217,9 @@ def gen_plan(seed, tier="quick", variant=None):
             f["hold"] = round((nb + 1) * cfg["client"]["timeout_ms"] / 1000.0 * 1.2 + 0.3, 6)
     t_end = max([horizon] + [f["t"] for f in faults if "t" in f] + [o["t"] for o in ops] + [p["end_t"] for p in phantoms] + [p["join_t"] for p in phantoms] +
                 [f["from_t"] + f.get("hold", 0.0) for f in faults if "from_t" in f])
+    for o in ops:
+        if o["op"] == "stop" and "on_leader_join" not in o and rng.random() < 0.2:
+            o["in_proc"] = True  # issued from inside the member's next processor call
     plan = {"family": FAMILY, "seed": seed, "tier": tier, "cfg": cfg, "ops": ops, "faults": faults, "phantoms": phantoms,
             "t_faults_end": round(t_end + 0.05, 6)}
     return plan
@@ -329,6 +332,11 @@ def _run(w, plan):
             run = m.runs[-1] if m.runs else None
             if run is not None and run.get("stop_fired"):
                 res.violate("C16", "C16:processor-after-stop", "member %s processed %s/%d after stop() had completed" % (m.pid, consumer.topic, consumer.partition), sim)
+            if getattr(m, "armed_stop", False):
+                # the application stops the group member from inside its processor
+                m.armed_stop = False
+                res.probe("group_stop_from_inside_a_processor")
+                stop_member(m)
             if m.cfg["proc_delay"]:
                 from twisted.internet.defer import Deferred
                 d = Deferred()
@@ -388,7 +396,10 @@ def _run(w, plan):
         k = o["op"]
         if k == "stop":
             if o["m"] < len(members):
-                stop_member(members[o["m"]])
+                if o.get("in_proc"):
+                    members[o["m"]].armed_stop = True
+                else:
+                    stop_member(members[o["m"]])
         elif k == "start":
             if o["m"] < len(members):
                 start_member(members[o["m"]])
@@ -614,7 +625,9 @@ def _oracles(w, plan, res, members, gc, g):
                 if counts and max(counts.values()) - min(counts.values()) > 1:
                     res.violate("C15", "C15:unbalanced-with-identical-subscriptions", "generation %d: %r" % (rec["generation"], counts))
             key = (tuple(sorted(rec["members"])), tuple(sorted((k, tuple(sorted(v))) for k, v in subs.items())),
-                   tuple(sorted((t, tuple(ps)) for t, ps in rec["partitions"].items())))
+                   tuple(sorted((t, tuple(ps)) for t, ps in rec["partitions"].items())),
+                   # (partitions created while a leader was working are in one generation's input and not in another's)
+                   tuple(sorted(assigned)))
             norm = tuple(sorted((tp, tuple(o)) for tp, o in assigned.items()))
             if key in seen and seen[key][0] != norm:
                 res.violate("C15", "C15:assignment-depends-on-listing-order", "generations %d and %d list the same members %r / %r and differ" % (
